@@ -35,12 +35,7 @@ N_PROGRAMS = {"quick": 20000, "thorough": 400000}
 OPTS = {"no_loopy": True, "no_csr": True, "float_divmod": True}
 
 
-class _Timeout(Exception):
-    pass
-
-
-def _alarm(signum: int, frame: Any) -> None:
-    raise _Timeout()
+_Timeout = common.Timeout
 
 
 _target: Any = None
@@ -239,12 +234,11 @@ def check_case(case: dict[str, Any], col: common.Collector) -> None:
         spec = proggen.generate(case["seed"], case["profile"], opts=OPTS)
     for k in ps.node_kinds(spec):
         col.histo("op", k)
-    old = signal.signal(signal.SIGALRM, _alarm)
-    signal.alarm(60)
     tmp = common.Collector()
     supported = False
     try:
-        run_program(spec, tmp)
+        with common.time_limit(60):
+            run_program(spec, tmp)
         supported = tmp.counters.get("mon.programs_generated", 0) > 0
         for k, v in tmp.counters.items():
             col.count(k, v)
@@ -252,13 +246,10 @@ def check_case(case: dict[str, Any], col: common.Collector) -> None:
             for k, v in d.items():
                 col.histo(t, k, v)
         if tmp.violations:
-            signal.alarm(240)
-            finalize(spec, tmp, col)
-    except _Timeout:
+            with common.time_limit(240):
+                finalize(spec, tmp, col)
+    except common.Timeout:
         col.count("program_timeouts")
-    finally:
-        signal.alarm(0)
-        signal.signal(signal.SIGALRM, old)
     col.case(common.stable_hash(spec), supported and ps.is_nontrivial(spec),
              {"profile": spec.get("profile"), "ops": ps.node_kinds(spec),
               "outputs": spec["outputs"]})
